@@ -511,6 +511,44 @@ Proof.
   eexists. split; [replace (lvl - 1 + 1) with lvl by lia; reflexivity|reflexivity].
 Qed.
 
+(* ---- list with an integer subtype: every item is an integer literal *)
+
+Definition int_item (p : signrun * intlit) : list tok := print_signs (fst p) ++ il_toks (snd p).
+Definition int_item_value (p : signrun * intlit) : aval := VInt (sign_value (fst p) * il_value (snd p)).
+
+Lemma cast_item_int : forall lvl sub p, classify sub = TyNumberC -> il_ok (snd p) ->
+  cast_item lvl sub (int_item p) = Some (int_item_value p).
+Proof.
+  intros lvl sub [sr l] Hc Hok. unfold cast_item, int_item, int_item_value. cbn [fst snd] in *. rewrite Hc. unfold internal.
+  assert (Hp : forallb is_plain (print_signs sr ++ il_toks l) = true) by (apply forallb_app_true; [apply signs_plain|apply il_plain, Hok]).
+  rewrite (plain_expand _ _ Hp), <- app_assoc. change (Cs (KInert kw_relax) false) with relax_tok.
+  rewrite (read_int_relax sr l [] lvl Hok). reflexivity.
+Qed.
+
+Lemma mapM_int_items : forall lvl sub ps, classify sub = TyNumberC -> Forall (fun p => il_ok (snd p)) ps ->
+  mapM (cast_item lvl sub) (map int_item ps) = Some (map int_item_value ps).
+Proof.
+  intros lvl sub ps Hc H. induction H as [|p r Hp _ IH]; [reflexivity|].
+  cbn [map mapM]. rewrite (cast_item_int lvl sub p Hc Hp), IH. reflexivity.
+Qed.
+
+Lemma areads_list_int : forall a k piece ps rest,
+  classify (a_type a) = TyList -> classify (a_subtype a) = TyNumberC -> ps <> [] ->
+  Forall (fun p => il_ok (snd p)) ps -> Forall (item_ok (delim_of a)) (map int_item ps) ->
+  delimited (a_spec a) piece (join (delim_of a) (map int_item ps)) ->
+  areads a (blanks k ++ piece ++ rest) (eq (VList (map int_item_value ps))) rest.
+Proof.
+  intros a k piece ps rest Hc Hs Hne Hil Hok Hd lvl.
+  rewrite (read_argument_generic a k piece (join (delim_of a) (map int_item ps)) rest lvl) by (rewrite ?Hc; auto).
+  unfold cast. rewrite (plain_modelled _ (join_plain _ _ eq_refl Hok)), Hc, (join_no_cs _ _ Hok).
+  assert (Hne' : map int_item ps <> []) by (destruct ps; [congruence|discriminate]).
+  rewrite (split_items_join (delim_of a) (map int_item ps) [] Hne' Hok).
+  destruct ps as [|p r]; [congruence|]. cbn [map rev app].
+  change (int_item p :: map int_item r) with (map int_item (p :: r)).
+  rewrite (mapM_int_items (lvl - 1) (a_subtype a) (p :: r) Hs Hil).
+  eexists. split; [replace (lvl - 1 + 1) with lvl by lia; reflexivity|reflexivity].
+Qed.
+
 (* ================================================================ dictionaries *)
 
 Definition dfinish (lvl : Z) (sub : option (list Z)) (d : list (aval * aval)) (key : list tok) (value : option (list tok))
@@ -676,6 +714,61 @@ Proof.
   eexists. split; [replace (lvl - 1 + 1) with lvl by lia; reflexivity|reflexivity].
 Qed.
 
+(* ================================================================ Number ended directly by a token that is not expanded *)
+
+(* what follows the digits is nothing, or a token the digit scanner leaves alone: a brace, $, an ordinary control sequence *)
+Definition stops_head (rest : list tok) : Prop := match rest with [] => True | t :: _ => stops_unexpanded t = true end.
+
+Lemma stops_head_seq_rest : forall lvl o rest, stops_head rest -> seq_rest lvl o rest = rest.
+Proof. intros lvl o [|t r] H; [reflexivity|]. cbn [seq_rest stops_head] in *. rewrite H. reflexivity. Qed.
+
+Lemma stops_head_ends : forall lvl set rest, stops_head rest -> ends_run lvl set rest.
+Proof. intros lvl set [|t r] H; [exact I|]. left. exact H. Qed.
+
+Lemma stops_not_register : forall t, stops_unexpanded t = true -> is_register t = false.
+Proof.
+  intros [cat c|k e] H; [reflexivity|]. destruct k; destruct e; cbn in *; try discriminate; reflexivity.
+Qed.
+
+(* \foo 12{abc}: the Number argument ends at the brace, which stays in the stream untouched (since 076499b) *)
+Lemma areads_number_tight : forall a sr l rest,
+  classify (a_type a) = TyNumberP -> il_ok l -> stops_head rest ->
+  areads a (print_signs sr ++ il_toks l ++ rest) (eq (VInt (sign_value sr * il_value l))) rest.
+Proof.
+  intros a sr l rest Hc Hok Hst lvl. unfold read_argument. rewrite Hc.
+  destruct (il_head l Hok) as (t0 & r0 & Hil & Ht0).
+  rewrite Hil. cbn [app]. rewrite (ros_print_signs sr t0 _ Ht0).
+  change (t0 :: r0 ++ rest) with ((t0 :: r0) ++ rest). rewrite <- Hil.
+  set (sr' := mkSR 0 (sr_signs sr)).
+  assert (Hsv : sign_value sr' = sign_value sr) by reflexivity.
+  assert (Hnr : no_register_next rest).
+  { destruct rest as [|t r]; [exact I|]. cbn in *. apply stops_not_register, Hst. }
+  destruct l as [ds|ds|ds]; cbn [il_toks il_ok il_value] in *.
+  - destruct Hok as (Hne & Hds). destruct ds as [|d ds]; [congruence|].
+    rewrite (read_integer_dec sr' d ds rest (lvl - 1) Hds (stops_head_ends _ _ _ Hst)).
+    + rewrite (stops_head_seq_rest _ _ _ Hst), Hsv. cbn [of_res].
+      eexists. split; [replace (lvl - 1 + 1) with lvl by lia; reflexivity|reflexivity].
+    + rewrite (stops_head_seq_rest _ _ _ Hst). exact Hnr.
+  - cbn [app]. rewrite (read_integer_oct sr' ds rest (lvl - 1) Hok (stops_head_ends _ _ _ Hst)).
+    rewrite (stops_head_seq_rest _ _ _ Hst), Hsv. cbn [of_res].
+    eexists. split; [replace (lvl - 1 + 1) with lvl by lia; reflexivity|reflexivity].
+  - cbn [app]. rewrite (read_integer_hex sr' ds rest (lvl - 1) Hok (stops_head_ends _ _ _ Hst)).
+    rewrite (stops_head_seq_rest _ _ _ Hst), Hsv. cbn [of_res].
+    eexists. split; [replace (lvl - 1 + 1) with lvl by lia; reflexivity|reflexivity].
+Qed.
+
+(* ================================================================ an absent plus / minus, syntactically *)
+
+(* the keyword search misses when the first token cannot be the keyword's first letter (and is not an expanded element, which
+   readKeyword would drop) *)
+Lemma misses_first : forall kw l ls s, map upper kw = l :: ls ->
+  match s with [] => True | t :: _ => is_element t = false /\ tok_upper_is t l = false end ->
+  misses kw s.
+Proof.
+  intros kw l ls s Hk Hs. unfold misses. rewrite Hk. destruct s as [|t r]; [reflexivity|].
+  destruct Hs as (He & Hu). cbn [match_word]. rewrite He, Hu. reflexivity.
+Qed.
+
 (* ================================================================ conforming typed arguments and calls *)
 
 (* conforms a s P s' : the stream s starts with a conforming use of the declared argument a, the value it denotes
@@ -683,10 +776,11 @@ Qed.
    - str: character tokens give the stripped text; with brace groups or commands inside the value is the source text
      (c_str_source; registers, active characters and unbalanced braces inside a string are outside the Model);
    - int / float / dimen casts: the argument is exactly a printed literal (signs, digits / decimal / dimension);
-   - Number: the literal is ended by a blank and not followed by a register (which would multiply it: known finding);
+   - Number: the literal is ended by a blank and not followed by a register (which would multiply it: known finding), or
+     directly by a token the digit scanner does not expand (a brace, $, an ordinary control sequence: c_number_tight);
      Dimen, Glue: as in the numeric theorems (after fil/fill no further l; absent plus/minus really absent);
    - list / dict: items, keys and values are character tokens without the delimiter (and without = in a dict), subtype none or
-     a string type, values non-empty, delimiter other than = for dict. *)
+     a string type (for list also an integer type: every item an integer literal), values non-empty, delimiter other than = for dict. *)
 Inductive conforms : arg -> list tok -> (aval -> Prop) -> list tok -> Prop :=
 | c_untyped : forall a k piece body rest,
     classify (a_type a) = TyNone \/ classify (a_type a) = TyNox -> delimited (a_spec a) piece body -> modelled body ->
@@ -729,6 +823,9 @@ Inductive conforms : arg -> list tok -> (aval -> Prop) -> list tok -> Prop :=
 | c_number : forall a sr l rest,
     classify (a_type a) = TyNumberP -> il_ok l -> not_register_head rest ->
     conforms a (print_signs sr ++ il_toks l ++ blank :: rest) (eq (VInt (sign_value sr * il_value l))) rest
+| c_number_tight : forall a sr l rest,
+    classify (a_type a) = TyNumberP -> il_ok l -> stops_head rest ->
+    conforms a (print_signs sr ++ il_toks l ++ rest) (eq (VInt (sign_value sr * il_value l))) rest
 | c_dimen : forall a p rest,
     classify (a_type a) = TyDimenP -> pdim_ok dimen_units p ->
     conforms a (print_dim p ++ rest) (dimen_value p) (read_one_optional_space rest)
@@ -745,6 +842,11 @@ Inductive conforms : arg -> list tok -> (aval -> Prop) -> list tok -> Prop :=
     classify (a_type a) = TyList -> str_sub (a_subtype a) -> items <> [] -> Forall (item_ok (delim_of a)) items ->
     delimited (a_spec a) piece (join (delim_of a) items) ->
     conforms a (blanks k ++ piece ++ rest) (eq (VList (map (fun it => VStr (strip (map code_of it))) items))) rest
+| c_list_int : forall a k piece ps rest,
+    classify (a_type a) = TyList -> classify (a_subtype a) = TyNumberC -> ps <> [] ->
+    Forall (fun p => il_ok (snd p)) ps -> Forall (item_ok (delim_of a)) (map int_item ps) ->
+    delimited (a_spec a) piece (join (delim_of a) (map int_item ps)) ->
+    conforms a (blanks k ++ piece ++ rest) (eq (VList (map int_item_value ps))) rest
 | c_dict : forall a k piece es rest,
     classify (a_type a) = TyDict -> str_sub (a_subtype a) -> delim_of a <> 61 -> es <> [] ->
     Forall (entry_ok (delim_of a)) es -> delimited (a_spec a) piece (join_entries (delim_of a) es) ->
@@ -765,9 +867,11 @@ Proof.
   - apply areads_float; assumption.
   - apply areads_dimen_cast; assumption.
   - apply areads_number; assumption.
+  - apply areads_number_tight; assumption.
   - apply areads_dimen_prim; assumption.
   - apply areads_glue_prim; assumption.
   - apply areads_list; assumption.
+  - apply areads_list_int; assumption.
   - apply areads_dict; assumption.
 Qed.
 
